@@ -460,6 +460,19 @@ class C11(EvalFamProp):
                     checks.append(f'Config(cfg.ayns.source) != cfg (#{i + 1})')
             if dump_node(src) != before:
                 checks.append('evaluating modified the source tree')
+            # the other way in: a copy of the kept source evaluated directly with EvalContext.evaluate, not through Config - evaluation
+            # reads the nodes, it does not rewrite them (seeded change S9-C11: the imported target was stored on the node)
+            if not case.get('files') and not case.get('mutating'):
+                try:
+                    import copy as _copy
+                    t2 = _copy.deepcopy(src)
+                    b2 = dump_node(t2)
+                    EvalContext(eval_symbols=w.syms).evaluate(t2)
+                    d2 = first_diff(b2, dump_node(t2))
+                    if d2:
+                        checks.append('evaluating a tree directly (EvalContext.evaluate) rewrote its nodes: ' + d2)
+                except Exception:  # noqa
+                    pass
             # mutate the evaluated config everywhere we can, the source must not change
             def mutate(v, depth=0):
                 if isinstance(v, dict):
